@@ -6,6 +6,8 @@ R3 sender bound: slice by min(window, pktsize), window decreased by what
    is sent, loop guarded by remaining window; who may write _send_window
 R4 peer packet size positive (shared with C10.R1)
 R5 replenishment: advertised adjust == growth of the local window
+R6 stream reader: a paused stream resumes as soon as less than one window
+   is buffered, and every consumer of the buffer re-evaluates that
 """
 
 from __future__ import annotations
@@ -19,6 +21,7 @@ from ..index import dotted, names_read, walk_shallow
 from ..flow import depends_on, expr_sources, PARAM
 from ..cfg import Node
 from .shared import pktsize_positive
+from ..absint import (evaluate, product, NotEvaluable, Obj, _Raise)
 
 CH = 'channel.SSHChannel.'
 
@@ -490,6 +493,102 @@ def r5(k: Kit) -> None:
     rep.floor('C08.R5', 'session delivery sites', deliver_sites, 1)
 
 
+# ------------------------------------------------------------------- R6
+
+SS = 'stream.SSHStreamSession.'
+
+
+def r6(k: Kit) -> None:
+    rep = k.rep
+    idx = k.idx
+    rep.rule('C08.R6', 'stream reader: a paused stream session resumes '
+             'channel reading whenever less than one window is buffered '
+             '(_maybe_resume_reading evaluated, helpers inlined, over every '
+             'class of limit / buffered length / paused flag), and every '
+             'function that takes bytes out of the receive buffer calls it '
+             'before it returns or blocks; otherwise a reader that keeps '
+             'reading waits for data the paused channel never delivers')
+    cls = idx.cls('stream.SSHStreamSession')
+    mr = k.func(SS + '_maybe_resume_reading')
+
+    def mk_on_call(val, depth=0):
+        def on_call(name, args, env):
+            if name.startswith('self._') and name.count('.') == 1 and \
+                    name[5:] in cls.methods and depth < 4 and \
+                    name != 'self._maybe_resume_reading':
+                fn = cls.methods[name[5:]]
+                o = evaluate(idx, fn.module, fn.node.body, dict(val), {},
+                             mk_on_call(val, depth + 1))
+                if o.kind == 'raise':
+                    raise _Raise(o.value)
+                return o.value
+            return Obj('x')
+        return on_call
+    n = 0
+    bad = None
+    for limit in (0, 1, 2, 3, 8, 2097152):
+        lens = sorted({0, 1, 2, max(limit - 1, 0), limit, limit + 1,
+                       limit // 2, max(limit // 2 - 1, 0), limit // 2 + 1})
+        for blen in lens:
+            for paused in (False, True):
+                n += 1
+                val = {'self._limit': limit, 'self._recv_buf_len': blen,
+                       'self._read_paused': paused, 'self._chan': Obj('CHAN')}
+                try:
+                    o = evaluate(idx, mr.module, mr.node.body, val, {},
+                                 mk_on_call(val))
+                except NotEvaluable as exc:
+                    rep.error('C08.R6', 'not-evaluable', str(exc))
+                    return
+                resumed = bool(o.called('self._chan.resume_reading'))
+                below = limit == 0 or blen < limit
+                if paused and below and not resumed:
+                    bad = bad or (f'limit={limit} buffered={blen} '
+                                  'paused=True: channel reading is not '
+                                  'resumed')
+                if (not paused) and resumed:
+                    bad = bad or (f'limit={limit} buffered={blen} '
+                                  'paused=False: resume_reading called on a '
+                                  'stream that is not paused')
+    rep.count('eval.table_rows', n)
+    rep.check(bad is None, 'C08.R6', key(mr, 'resume table'),
+              f'{n} states: paused and less than one window buffered ⇒ '
+              'resume_reading()',
+              f'{bad}: a reader needing up to one window of data '
+              '(readexactly, or any read once the buffer is empty) blocks '
+              'while the channel stays paused', mr.loc(mr.node))
+    # consumers re-evaluate
+    sites = 0
+    for fi in idx.iter_funcs(['stream']):
+        decs = [n_ for n_ in ast.walk(fi.node)
+                if isinstance(n_, ast.AugAssign) and
+                isinstance(n_.op, ast.Sub) and
+                dotted(n_.target) == 'self._recv_buf_len']
+        if not decs:
+            continue
+        g = k.cfg(fi)
+        T = {nd.id for nd, c in k.calls_named(fi, '_maybe_resume_reading')}
+        blocks = [nd.id for nd, c in k.calls_named(fi, '_block_read')]
+        for d in decs:
+            dn = g.node_for(d)
+            if dn is None:
+                continue
+            sites += 1
+            w = g.path(dn.id, g.exit, blocked_nodes=T, follow_exc=False)
+            for b in blocks:
+                w = w or g.path(dn.id, b, blocked_nodes=T, follow_exc=False)
+            rep.check(w is None, 'C08.R6',
+                      key(fi, f'consume `{norm(d)}` then resume'),
+                      'bytes taken from the receive buffer ⇒ resume test '
+                      'before returning or blocking',
+                      'the receive buffer shrinks but the function returns '
+                      'or blocks without calling _maybe_resume_reading: a '
+                      'paused channel stays paused although the buffer is '
+                      'below the window',
+                      k.loc(fi, dn), g.describe_path(w) if w else None)
+    rep.floor('C08.R6', 'receive-buffer consumers', sites, 5)
+
+
 def run(idx, rep, tier):
     k = Kit(idx, rep)
     rep.assumptions += NOT_DECIDED
@@ -500,3 +599,4 @@ def run(idx, rep, tier):
              'stored (same rule as C10.R1)')
     pktsize_positive(k, 'C08.R4')
     r5(k)
+    r6(k)
